@@ -280,6 +280,53 @@ func propC02(c *ctx) error {
 			}
 		}
 	}
+	// ---- attribute NAMES x word-like values: the attribute is emitted with the escaped value whatever its name means
+	// to a browser (boolean attributes, event handlers, URLs, style) and whatever the value spells (false, null, …);
+	// alone, over a static attribute of the same name with a value, and over a VALUELESS static one
+	names := []string{"checked", "disabled", "selected", "readonly", "required", "hidden", "multiple", "autofocus", "open", "async", "defer",
+		"value", "href", "src", "style", "class", "id", "name", "type", "onclick", "data-x", "aria-hidden", "title", "for", "is", "x"}
+	words := []string{"false", "true", "", "0", "1", "null", "nil", "undefined", "none", "off", "no", "False", "FALSE", "<nil>", " false ", "checked", "javascript:alert(1)"}
+	if c.quick() {
+		words = words[:9]
+	}
+	for _, nm := range names {
+		for _, w := range words {
+			for vi, form := range []string{
+				`<input :` + nm + `="${s}" id=k>`,
+				`<input ` + nm + `="static" :` + nm + `="${s}" id=k>`,
+				`<input ` + nm + ` :` + nm + `="${s}" id=k>`,
+				`<input id=k :` + nm + `="${s}" ` + nm + `>`,
+			} {
+				if nm == "id" && vi > 0 {
+					continue
+				}
+				rc := &renderCase{Files: [][2]string{{"t", form}}, Tpl: "t", Data: vMap(kv{"s", vStr(w)}).j}
+				want := `<input ` + nm + `="` + html.EscapeString(w) + `" id=k>`
+				// (directive attributes are sorted before plain ones: the written position of the dynamic attribute does
+				// not matter, form 3 prints like the others)
+				if nm == "id" {
+					want = `<input id="` + html.EscapeString(w) + `">` // the dynamic id replaces the static id=k
+				}
+				var out renderOut
+				if c.d != nil {
+					o, _, err := compareRender(c, rc, true)
+					if err != nil {
+						return err
+					}
+					out = o
+				} else {
+					out = implRender(rc, -1)
+				}
+				res.eval("name|"+form+"|"+w, true, J{"tpl": form, "s": w})
+				res.S3Checked++
+				res.count("attr_name_value_cases")
+				if out.St != "ok" || out.text() != want {
+					res.violate(rc.toJ(), want, J{"st": out.St, "out": out.text(), "err": trunc(out.Err, 120)},
+						"a dynamic attribute is not emitted as name=\"escaped value\" exactly once (it must not depend on the attribute's name or on what the value spells, and it replaces a static attribute of the same name)")
+				}
+			}
+		}
+	}
 	return nil
 }
 
